@@ -10,6 +10,8 @@ CONSTANTS
   MaxFail = 1
   MaxCancel = 1
   Policies = {"skip", "put"}
+  BadAt = 0
+  AllowInvalid = FALSE
 PROPERTIES
   PublishTerminatesP
 CHECK_DEADLOCK FALSE
